@@ -27,6 +27,55 @@ pub(super) fn detect_cycles(ast: &Ast, diagnostics: &mut Diagnostics) {
         cycle_detector.type_being_checked = Some((candidate.module_scoped_identifier(), candidate));
         candidate.check_for_cycles(&mut cycle_detector)
     }
+
+    // Interfaces cannot inherit from themselves, either directly or through their base interfaces.
+    for node in ast.as_slice() {
+        if let Node::Interface(interface_def) = node {
+            check_for_inheritance_cycle(interface_def.borrow(), diagnostics);
+        }
+    }
+}
+
+/// Reports an error if the provided interface (transitively) inherits from itself.
+fn check_for_inheritance_cycle(interface_def: &Interface, diagnostics: &mut Diagnostics) {
+    /// Searches the bases of `current` (depth first) for `target`. `path` holds the interfaces we're currently inside.
+    /// Returns true if `target` was found, in which case `path` holds the chain of bases that leads back to it.
+    fn find_path_to<'a>(target: &str, current: &'a Interface, path: &mut Vec<&'a Interface>) -> bool {
+        for base in current.base_interfaces() {
+            let base_id = base.module_scoped_identifier();
+            if base_id == target {
+                return true;
+            }
+
+            // If we're already inside this base, it's part of a cycle that doesn't involve `target`.
+            // That cycle is reported for the interfaces that are on it; we skip it here to avoid looping forever.
+            if path.iter().any(|seen| seen.module_scoped_identifier() == base_id) {
+                continue;
+            }
+
+            path.push(base);
+            if find_path_to(target, base, path) {
+                return true;
+            }
+            path.pop();
+        }
+        false
+    }
+
+    let type_id = interface_def.module_scoped_identifier();
+    let mut path = vec![interface_def];
+    if find_path_to(&type_id, interface_def, &mut path) {
+        // Create a string showing the cycle that was detected (a string of the form "A -> B -> C -> A").
+        let mut cycle = String::new();
+        for link in &path {
+            cycle = cycle + &link.module_scoped_identifier() + " -> ";
+        }
+        cycle += &type_id;
+
+        Diagnostic::new(Error::InfiniteSizeCycle { type_id, cycle })
+            .set_span(interface_def.span())
+            .push_into(diagnostics);
+    }
 }
 
 /// This trait is implemented on a type if and only if it is possible for that type to cause a cycle.
